@@ -74,7 +74,17 @@ def run(sid, tier="quick", inplace=False, props=None):
             print(sid, p, "exit", r.returncode, viol[:1])
     finally:
         undo()
-    json.dump(out, open(os.path.join(d, f"result_{tier}.json"), "w"), indent=1)
+    # merge with earlier runs of other checks against the same seeded change
+    rp = os.path.join(d, f"result_{tier}.json")
+    if os.path.exists(rp):
+        try:
+            prev = json.load(open(rp))
+            merged = dict(prev.get("checks", {}))
+            merged.update(out["checks"])
+            out["checks"] = merged
+        except Exception:
+            pass
+    json.dump(out, open(rp, "w"), indent=1)
     return out
 
 
